@@ -1,6 +1,7 @@
 use aho_corasick::*;
 use aho_corasick::automaton::OverlappingState;
 fn main() {
+    c13_stepwise_overlapping();
     for kind in [AhoCorasickKind::NoncontiguousNFA, AhoCorasickKind::ContiguousNFA, AhoCorasickKind::DFA] {
         for mk in [MatchKind::LeftmostFirst, MatchKind::LeftmostLongest] {
             let ac = AhoCorasick::builder().kind(Some(kind)).match_kind(mk).build(["abc", ""]).unwrap();
@@ -20,4 +21,13 @@ fn main() {
         let r = std::panic::catch_unwind(|| ac.is_match(Input::new("abc").anchored(Anchored::Yes)));
         println!("C13 {:?} is_match(anchored on unanchored searcher) = {:?}", kind, r.map_err(|_| "panic"));
     }
+}
+// C13 (second finding, discovered by the rejection harness): stepwise
+// overlapping search on a non-standard searcher must be rejected.
+#[allow(dead_code)]
+fn c13_stepwise_overlapping() {
+    use aho_corasick::automaton::OverlappingState;
+    let ac = AhoCorasick::builder().match_kind(MatchKind::LeftmostFirst).build(["ab", "b"]).unwrap();
+    let mut st = OverlappingState::start();
+    println!("C13b try_find_overlapping on leftmost-first = {:?}", ac.try_find_overlapping("ab", &mut st).map(|_| st.get_match()));
 }
